@@ -10,7 +10,8 @@
 //	nil     empty payloads built from nil and from empty slices
 //	family  close neighbours: containers over the same few keys and items (equal size
 //	        with different keys, same keys in another insertion order, same keys with
-//	        values of other types, nested), scalar twins (equal, adjacent, -0/+0)
+//	        values of other types, nested), scalar twins (equal, adjacent, -0/+0),
+//	        ladders of texts / blobs / arrays through the length classes 0..3
 //	enum    random samples of the specification's small-scope enumeration
 //	rand    large random values (depth <= 4) and mutated copies of them
 //	kf_*    witnesses of open known findings (none at present)
@@ -213,7 +214,7 @@ func twins(r *rand.Rand) []*valgen.Node {
 		{valgen.Blob([]byte{}), valgen.Blob([]byte{1}), valgen.Blob([]byte{2}), valgen.Blob([]byte{1, 0}), valgen.Blob([]byte{1, 255}), valgen.Blob([]byte{2, 0}),
 			valgen.Blob([]byte{1, 0, 7}), valgen.Blob([]byte{1, 0, 8}), valgen.Blob(append(append([]byte{}, s...), 9, 9, 9, 9, 1)), valgen.Blob(append(append([]byte{}, s...), 9, 9, 9, 9, 2))},
 		{valgen.TextArray(), valgen.TextArray(s), valgen.TextArray([]byte("a")), valgen.TextArray([]byte("a"), []byte("a")), valgen.TextArray([]byte("a"), []byte("b")),
-			valgen.TextArray([]byte("b")), valgen.LongArray(), valgen.LongArray(v), valgen.LongArray(v, v), valgen.LongArray(v, v+1), valgen.LongArray(v+1)},
+			valgen.TextArray([]byte("b")), valgen.LongArray(), valgen.LongArray(v), valgen.LongArray(v, v), valgen.LongArray(v, v+1), valgen.LongArray(v + 1)},
 	}
 	return all[r.Intn(len(all))]
 }
